@@ -443,6 +443,90 @@ def shared_socket_id_experiment(env, order, pb):
     return P
 
 
+def second_application_experiment(env, order, pb):
+    """two applications on the creator's node: application 0 creates a pair with the peer, application 1 (purely local) starts, allocates,
+    and STOPS, application 0 creates two more pairs on the same socket pair.  The three pairs of application 0 must carry three different
+    sequence numbers, equal on both ends, and be isolated |Phi+> pairs: nothing another application does may disturb them."""
+    from netqasm.backend.messages import InitNewAppMessage, OpenEPRSocketMessage, StopAppMessage
+    from netqasm.sdk.shared_memory import SharedMemoryManager
+    SharedMemoryManager.reset_memories()
+    env.clock.stopped = False
+    names = list(order)
+    if pb:
+        import net_pb
+        net = net_pb.make_pb_network(env, names, [12] * 2, [12] * 2)
+    else:
+        net = N.make_network(env, names, [12] * 2, [12] * 2)
+    Q.make_hosts(env, net, pb_local=pb)
+    ids = Q.node_ids(names)
+    A, B = 0, 1
+    idA, idB = ids[names[A]], ids[names[B]]
+    P = []
+
+    def pump(pend, what, rounds=400):
+        for _ in range(rounds):
+            if pb:
+                import net_pb
+                net_pb.flush(net)
+            if all(p.done for p in pend):
+                return True
+            calls = env.clock.getDelayedCalls()
+            if calls:
+                env.clock.advance(max(min(c.getTime() for c in calls) - env.clock.seconds(), 0.0) + 1e-6)
+        P.append({"kind": "hang", "what": "second-application experiment (names %r): %s did not complete" % (names, what)})
+        return False
+
+    def go(node, msg, what):
+        p = EP.start(net.hosts[node], msg)
+        return p if pump([p], what) else None
+    Q.script_coins(env, [0, 1, 1, 0] * 16, len(env.tap))
+    for node in (A, B):
+        if go(node, InitNewAppMessage(app_id=0, max_qubits=10), "InitNewApp 0") is None:
+            return P
+    for node, rid in ((A, idB), (B, idA)):
+        if go(node, OpenEPRSocketMessage(app_id=0, epr_socket_id=0, remote_node_id=rid, remote_epr_socket_id=0, min_fidelity=100), "OpenEPRSocket") is None:
+            return P
+    seqs = []
+
+    def pair(q, cbase, rbase, what):
+        pr = EP.start(net.hosts[B], _text_msg(_recv_keep(idA, 0, q, rbase)))
+        pc = EP.start(net.hosts[A], _text_msg(_create_keep(idB, 0, q, cbase)))
+        if not pump([pr, pc], what):
+            return False
+        ca = list(net.hosts[A].executor._app_arrays[0][cbase + 2, :])
+        ra = list(net.hosts[B].executor._app_arrays[0][rbase + 1, :])
+        if None in ca or None in ra or ca[4] != ra[4]:
+            P.append({"kind": "pairing", "what": "second-application experiment, %s: creator record %r, receiver record %r" % (what, ca, ra)})
+            return False
+        seqs.append(ca[4])
+        return True
+    if not pair(0, 0, 0, "first pair of application 0"):
+        return P
+    if go(A, InitNewAppMessage(app_id=1, max_qubits=4), "InitNewApp 1") is None:
+        return P
+    if go(A, _text_msg("set Q0 0\nqalloc Q0\ninit Q0\nh Q0\n", app=1), "local subroutine of application 1") is None:
+        return P
+    if go(A, StopAppMessage(app_id=1), "StopApp 1") is None:
+        return P
+    if not pair(1, 3, 2, "second pair of application 0") or not pair(2, 6, 4, "third pair of application 0"):
+        return P
+    Q.script_coins(env, None, 0)
+    if len(set(seqs)) != len(seqs):
+        P.append({"kind": "seq-collision", "what": "second-application experiment (names %r): the three pairs application 0 created on one socket pair carry sequence "
+                  "numbers %r (another application on the creator's node was stopped in between)" % (names, seqs)})
+    for q in range(3):
+        try:
+            q1 = N.resolve(net, net.hosts[A].factory.qubitList[net.hosts[A].executor._get_position(app_id=0, address=q)].virt)
+            q2 = N.resolve(net, net.hosts[B].factory.qubitList[net.hosts[B].executor._get_position(app_id=0, address=q)].virt)
+        except Exception as e:               # noqa: BLE001
+            P.append({"kind": "delivery", "what": "second-application experiment: pair %d is not mapped on both hosts (%s)" % (q, type(e).__name__)})
+            continue
+        rho = EP.pair_state(net, q1, q2)
+        if rho is None or not O_close(rho, EP.PHI):
+            P.append({"kind": "state", "what": "second-application experiment: pair %d of application 0 is not an isolated |Phi+> pair" % q})
+    return P
+
+
 def O_close(a, b):
     import numpy as np
     return a.shape == b.shape and np.allclose(a, b, atol=1e-8)
@@ -541,6 +625,14 @@ def run(ctx, only_extra=False):
             ctx.case(("shared-socket-id", tuple(order), pb), nontrivial=True)
             if ps:
                 occ.append((9, order, pb, ps))
+        for order, pb in ((["Na", "Nb"], False), (["Nb", "Na"], True)):
+            if hung:
+                break
+            ps = second_application_experiment(env, order, pb)
+            ctx.count("second_application_experiments")
+            ctx.case(("second-application", tuple(order), pb), nontrivial=True)
+            if ps:
+                occ.append((8, order, pb, ps))
     # measure-directly pairs, message by message against the N-host model (harness/qasm_eprfail.py, Qasm/EprCases.v): one request of one
     # pair with the creator's two basis choices forced through the seeded generator, all nine pairs of bases
     import qasm_eprfail as F
@@ -612,7 +704,7 @@ def run(ctx, only_extra=False):
             else:
                 ctx.broken_explained_by_known = True
     ctx.obligation("oracle: a delivery into an occupied virtual address stays pending until the address is freed; requests handled meanwhile and the pending one "
-                   "all end as isolated |Phi+> pairs at the right addresses (3 variants x 3 configuration orders); one socket id towards two neighbours, one request at a time (3 orders)", not occ,
+                   "all end as isolated |Phi+> pairs at the right addresses (3 variants x 3 configuration orders); one socket id towards two neighbours, one request at a time (3 orders); a second application on the creator's node starting and stopping between requests", not occ,
                    occ[0][3][0]["what"] if occ else "")
     for variant, order, pb, ps in occ[:1]:
         key = "C08:occupied-address-" + ps[0]["kind"]
